@@ -320,23 +320,16 @@ class BaseClient:
 
         :rtype: :py:class:`pathlib.PurePosixPath`
         """
-        seq_quotes = 0
-        start = False
         directory = ""
-        for ch in s:
-            if not start:
-                if ch == '"':
-                    start = True
-            else:
-                if ch == '"':
-                    seq_quotes += 1
-                else:
-                    if seq_quotes == 1:
-                        break
-                    elif seq_quotes == 2:
-                        seq_quotes = 0
-                        directory += '"'
-                    directory += ch
+        i = s.find('"') + 1
+        while 0 < i < len(s):
+            if s[i] == '"':
+                # doubled quote is a quote inside the name, single one ends it
+                if s[i + 1 : i + 2] != '"':
+                    break
+                i += 1
+            directory += s[i]
+            i += 1
         return pathlib.PurePosixPath(directory)
 
     @staticmethod
